@@ -29,6 +29,10 @@ structure FSub (K O F : Type) where
   /-- number of times `close(s.readych)` was executed (a second one would panic) -/
   readyCloses : Nat := 0
   stopped : Bool := false
+  /-- ghost: some Refilter call has been received -/
+  refilterSeen : Bool := false
+  /-- ghost: the filter most recently asked for (constructor argument, then every Refilter argument) -/
+  lastF : F
 
 inductive FLabel (O F : Type)
   /-- `case <-preadych`, with the parent's `Cache().List()` at that instant -/
@@ -45,7 +49,7 @@ variable {K O F : Type} [DecidableEq K]
 variable (key : O → K) (ver : O → Option Int) (accF : F → O → Bool) (feq : F → F → Bool) (cap : Nat)
 
 def FSub.init (deferReady : Bool) (f : F) : FSub K O F :=
-  { deferReady := deferReady, filter := f, cfilter := f }
+  { deferReady := deferReady, filter := f, cfilter := f, lastF := f }
 
 /-- is the label's `select` case enabled? (`preadych` is nil once seen; nothing after stop) -/
 def FSub.enabled (s : FSub K O F) : FLabel O F → Bool
@@ -61,6 +65,7 @@ def FSub.step (s : FSub K O F) : FLabel O F → FSub K O F
       { s with pseen := true, items := r.1, ready := true, readyCloses := s.readyCloses + 1 }
   | .refilter f plist =>
     let isNew := !feq s.filter f
+    let s := { s with refilterSeen := true, lastF := f }
     if !s.pseen && !isNew then { s with pending := true }
     else if !s.pseen && isNew then
       let r := doSync key ver (accF f) s.items []
